@@ -94,11 +94,20 @@ func runC03Child(c *Ctx, args []string) {
 	if len(args) > 0 {
 		fmt.Sscanf(args[0], "%d", &start)
 	}
+	only := -1 // second argument: decode this mutant only (confirmation of a hang with a long watchdog)
+	watchdog := 25 * time.Second
+	if len(args) > 1 {
+		fmt.Sscanf(args[1], "%d", &only)
+		watchdog = 150 * time.Second
+	}
 	out := bufio.NewWriter(os.Stdout)
 	sc := bufio.NewScanner(f)
 	for sc.Scan() {
 		var idx, jobs, rs int
 		if _, err := fmt.Sscanf(sc.Text(), "%d %d %d", &idx, &jobs, &rs); err != nil || idx < start {
+			continue
+		}
+		if only >= 0 && idx != only {
 			continue
 		}
 		data, err := os.ReadFile(filepath.Join(c.Out, "m", fmt.Sprintf("%d.bin", idx)))
@@ -128,7 +137,7 @@ func runC03Child(c *Ctx, args []string) {
 		select {
 		case r := <-done:
 			fmt.Fprintf(out, "DONE %d %.2f %s\n", idx, time.Since(t0).Seconds(), r)
-		case <-time.After(25 * time.Second):
+		case <-time.After(watchdog):
 			fmt.Fprintf(out, "HANG %d\n", idx)
 			out.Flush()
 			os.Exit(3)
@@ -155,6 +164,39 @@ func runC03(c *Ctx, _ []string) {
 		fmt.Fprintf(list, "%d %d %d\n", idx, 1+r.Intn(8), 1+r.Intn(20000))
 		muts = append(muts, mut{kind, desc})
 		c.Hist("kind", kind)
+	}
+	emitJ := func(kind, desc string, data []byte, jobs int) {
+		idx := len(muts)
+		os.WriteFile(filepath.Join(c.Out, "m", fmt.Sprintf("%d.bin", idx)), data, 0644)
+		fmt.Fprintf(list, "%d %d %d\n", idx, jobs, 1+r.Intn(20000))
+		muts = append(muts, mut{kind, desc})
+		c.Hist("kind", kind)
+	}
+	// a block that decodes to slightly more than the block size a forged header declares (inside the padding of the
+	// decoding buffers), with small declared sizes (fewer decoding tasks than jobs), for every job count
+	for _, cf := range []sCfg{{"NONE", "NONE", 2048, 1, 0, 0, false}, {"LZ", "HUFFMAN", 2048, 1, 32, 0, false}} {
+		for _, size := range []int{1040, 1500} {
+			data := mkData("text", size, 5)
+			stream, stage, err := compress(cf, data, nil)
+			if stage != "" || err != nil {
+				continue
+			}
+			ci := parseContainer(stream, false, 0)
+			if !ci.OK {
+				continue
+			}
+			for _, hint := range []uint64{0, 1000, 1024, uint64(size), 4000} {
+				szm := uint64(0)
+				if hint > 0 {
+					szm = 1
+				}
+				w := forgeHeader(uint64(ci.Checksum/32), ci.Entropy, ci.Transform, 1024, szm, hint)
+				w.appendBits(stream, ci.HeaderBits)
+				for jobs := 1; jobs <= 8; jobs++ {
+					emitJ("forged-blocksize", fmt.Sprintf("%s/%s block of %d bytes, header says 1024, size=%d, jobs=%d", cf.Transform, cf.Entropy, size, hint, jobs), w.b, jobs)
+				}
+			}
+		}
 	}
 	// base streams: each transform with entropy NONE (transform headers exposed), each entropy with NONE
 	type base struct {
@@ -271,6 +313,33 @@ func runC03(c *Ctx, _ []string) {
 				emit("header-cut", fmt.Sprintf("%s cut at %d", tag, cut), append([]byte{}, stream[:cut]...))
 			}
 		}
+		if !big && bi%4 == 2 { // every cut inside the first block (frame header, block header, code tables of the entropy stage)
+			h := ci.HeaderBits / 8
+			for cut := h; cut <= h+72 && cut < len(stream); cut++ {
+				emit("first-block-cut", fmt.Sprintf("%s cut at %d", tag, cut), append([]byte{}, stream[:cut]...))
+			}
+		}
+		if !big && bi%4 == 3 { // forged headers: a block size smaller than what the blocks decode to, with and without a small declared size
+			for _, bsz := range []uint64{uint64(ci.Block) / 2, 1024} {
+				if bsz < 1024 || bsz >= uint64(ci.Block) || bsz%16 != 0 {
+					continue
+				}
+				for _, hint := range []uint64{0, 1000, bsz, bsz + 16, 4 * bsz} {
+					szm := uint64(0)
+					if hint > 0 {
+						szm = 1
+						if hint >= 1<<16 {
+							szm = 2
+						}
+					}
+					for rep := 0; rep < 2; rep++ { // twice: the job count of a mutant is drawn at random
+						w := forgeHeader(uint64(ci.Checksum/32), ci.Entropy, ci.Transform, bsz, szm, hint)
+						w.appendBits(stream, ci.HeaderBits)
+						emit("forged-blocksize", fmt.Sprintf("%s bs=%d size=%d", tag, bsz, hint), w.b)
+					}
+				}
+			}
+		}
 		if !big && bi%4 == 0 { // forged headers: boundary values of the optional original-size field (present but 0, 1, around the block size, all ones)
 			for szm := uint64(1); szm <= 3; szm++ {
 				for _, hint := range []uint64{0, 1, uint64(ci.Block) - 1, uint64(ci.Block), 63 * uint64(ci.Block), (1 << (16 * szm)) - 1} {
@@ -357,6 +426,20 @@ func runC03(c *Ctx, _ []string) {
 		}
 		start = last + 1
 	}
+	// a mutant that ran into the 25 s watchdog is decoded once more, alone, with a 150 s watchdog: a loaded machine must not
+	// turn a slow decode into a reported hang
+	for i, st := range status {
+		if st != "HANG" {
+			continue
+		}
+		cmd := exec.Command(os.Args[0], "c03child", "-out", c.Out, fmt.Sprint(i), fmt.Sprint(i))
+		outb, _ := cmd.Output()
+		for _, line := range strings.Split(string(outb), "\n") {
+			if strings.HasPrefix(line, fmt.Sprintf("DONE %d ", i)) {
+				status[i] = line + " (slow: passed the 25 s watchdog on a second run)"
+			}
+		}
+	}
 	nontrivial := 0
 	for i, st := range status {
 		c.Count("evaluations", 1)
@@ -377,7 +460,7 @@ func runC03(c *Ctx, _ []string) {
 			}
 		case st == "HANG":
 			c.Hist("outcome", "HANG")
-			c.Violation(map[string]any{"what": "decoding does not terminate (25 s watchdog)", "mutant": m.kind + " " + m.desc, "key": "impl:hang: " + m.kind})
+			c.Violation(map[string]any{"what": "decoding does not terminate (25 s watchdog, confirmed alone with a 150 s watchdog)", "mutant": m.kind + " " + m.desc, "key": "impl:hang: " + m.kind})
 		case strings.HasPrefix(st, "CRASH"):
 			c.Hist("outcome", "CRASH")
 			c.Violation(map[string]any{"what": "the decoding process died: " + st, "mutant": m.kind + " " + m.desc, "key": "impl:crash: " + m.kind})
